@@ -733,6 +733,7 @@ impl Datamodel for ECMAScriptDatamodel {
                     _ => {
                         self.log("Resulting value is not a supported collection.");
                         self.internal_error_execution();
+                        return false;
                     }
                 }
                 true
